@@ -70,6 +70,9 @@ pub enum Party {
 pub struct CheckShape {
     pub kind: b::CheckKind,
     pub alts: Vec<i64>,
+    /// when set, the second alternative carries this scope instead of the position's scope
+    /// (alternatives of one check with different scopes)
+    pub alt2_scope: Option<Sc>,
 }
 
 #[derive(Clone, Debug)]
@@ -100,11 +103,20 @@ fn f_const(k: i64) -> b::Predicate {
     b::pred("f", &[b::int(k)])
 }
 
-fn mk_check(shape: &CheckShape, sc: Sc) -> b::Check {
+fn mk_check_for(shape: &CheckShape, sc: Sc, in_authorizer: bool) -> b::Check {
     let queries = shape
         .alts
         .iter()
-        .map(|k| match shape.kind {
+        .enumerate()
+        .map(|(ai, k)| {
+            let sc = match (ai, shape.alt2_scope) {
+                (1, Some(Sc::Previous)) if in_authorizer => Sc::Authority,
+                (1, Some(s)) => s,
+                _ => sc,
+            };
+            (k, sc)
+        })
+        .map(|(k, sc)| match shape.kind {
             // check all f($x), $x >= k : needs a visible f and no visible f below k
             b::CheckKind::All => q(
                 vec![b::pred("f", &[b::var("x")])],
@@ -124,6 +136,10 @@ fn mk_check(shape: &CheckShape, sc: Sc) -> b::Check {
         queries,
         kind: shape.kind.clone(),
     }
+}
+
+fn mk_check(shape: &CheckShape, sc: Sc) -> b::Check {
+    mk_check_for(shape, sc, false)
 }
 
 /// block i: fact f(i); rule d<i>($x) <- f($x) [rule scope]; one check [check scope]; block scope
@@ -227,7 +243,7 @@ pub fn mk_authorizer(cfg: &AuthCfg, shape: &CheckShape) -> (AuthorizerBuilder, r
         vec![],
         cfg.rule_scope.scopes(),
     );
-    let chk = mk_check(shape, cfg.check_scope);
+    let chk = mk_check_for(shape, cfg.check_scope, true);
     let pols = policies_variant(cfg.policies, cfg.policy_scope);
     let mut ab = AuthorizerBuilder::new()
         .fact(fact.clone())
@@ -377,7 +393,7 @@ fn shape_name(s: &CheckShape) -> String {
             b::CheckKind::All => "all",
             b::CheckKind::Reject => "reject",
         },
-        s.alts.iter().map(|k| k.to_string()).collect::<Vec<_>>().join("|")
+        s.alts.iter().map(|k| k.to_string()).collect::<Vec<_>>().join("|") + &s.alt2_scope.map(|x| format!("[alt2 trusting {}]", x.show())).unwrap_or_default()
     )
 }
 
@@ -391,7 +407,11 @@ pub fn run(tier: Tier) {
         let mut v = vec![];
         for kind in [b::CheckKind::One, b::CheckKind::All, b::CheckKind::Reject] {
             for alts in tier.pick(vec![vec![1], vec![0, 1]], vec![vec![0], vec![1], vec![0, 1], vec![1, AUTH_FACT], vec![7, 1]]) {
-                v.push(CheckShape { kind: kind.clone(), alts });
+                v.push(CheckShape { kind: kind.clone(), alts, alt2_scope: None });
+            }
+            // alternatives of one check with different scopes
+            for (alts, s2) in tier.pick(vec![(vec![0, 1], Sc::K1)], vec![(vec![0, 1], Sc::K1), (vec![1, 0], Sc::Previous), (vec![7, 1], Sc::Authority)]) {
+                v.push(CheckShape { kind: kind.clone(), alts, alt2_scope: Some(s2) });
             }
         }
         v
